@@ -21,6 +21,10 @@ for i in range(1, 21):
             continue
         d = A.Defs(root)
         locs = {n for n, ds in d.defs.items() if not any(k in ("param", "def", "comp", "comp-unpack") for k, _, _ in ds)}
+        import ast
+        for sub in ast.walk(root):
+            if isinstance(sub, (ast.FunctionDef, ast.AsyncFunctionDef)) and sub is not root:
+                locs |= {n for n, ds in A.Defs(sub).defs.items() if not any(k in ("param", "def", "comp", "comp-unpack") for k, _, _ in ds)}
         names = A.pattern_names(pattern) & locs
         if names:
             per.setdefault(fi.qualname, set()).update(names)
